@@ -9,8 +9,9 @@ Rec == ndJsonDeserialize(IOEnv.OBS)
 VARIABLE l
 vars == <<l>>
 
-\* a client whose connection has closed is never handed out
-P16a(e) == e.closed_handout = 0
+\* a client whose connection has closed is never handed out, nor one whose recycle check the
+\* (scripted) server answered with an error or by hanging up: a failed check discards the client
+P16a(e) == e.closed_handout = 0 /\ e.failed_handout = 0
 \* every recycle check is exactly the documented query of the recycling method (none for Fast)
 P16b(e) == e.bad_q = 0 /\ ((e.fast /\ e.k # "stress") => e.nqueries = 0)
 \* prepare_[typed_]cached: a hit causes no round trip; a miss one Parse on that connection for
